@@ -384,7 +384,7 @@ func totalRun(args []string) error {
 			case 2:
 				sp.resph.Add("Expires", "Thu, 01 Jan 2099 00:00:00 GMT")
 			case 3:
-				sp.resph.Add("Cache-Control", "no-cache=\"set-cookie\", max-age=\"5\"")
+				sp.resph.Add("Cache-Control", []string{"no-cache=\"set-cookie\", max-age=\"5\"", "public, ext=\",\"", "ext=\"", "=", "\"", ",,", "ext=\"\"", "a=\"b, public"}[(st/4)%8])
 			}
 			se := buildSigned(sp, kc)
 			if se.err != "" {
